@@ -813,15 +813,18 @@ int main(int argc, char **argv) {
       CFGNAME = cfg.name;
       if (mode == "dfs") {
         // phase A: extended alphabet to depth_ext; phase B: core alphabet to depth_core
-        for (int phase = 0; phase < 2; phase++) {
+        // phase 2 (domains that model booleans only): the boolean-focus alphabet, one level deeper than the core phase
+        for (int phase = 0; phase < ((e.caps & CAP_BOOL) ? 3 : 2); phase++) {
           ALPHA = build_alphabet(e.caps, true);
           std::vector<int> first; // first-step op indices for this phase
           std::vector<int> allowed;
           for (int i = 0; i < (int)ALPHA.size(); i++)
-            if (phase == 0 || ALPHA[i].tier == 0) allowed.push_back(i);
+            if (phase == 0 || (phase == 1 && ALPHA[i].tier == 0) || (phase == 2 && ALPHA[i].focus)) allowed.push_back(i);
           if (phase == 1)
             for (auto &h : ALPHA) if (h.tier != 0) h.disabled = true;
-          MAXD = phase == 0 ? depth_ext : depth_core;
+          if (phase == 2)
+            for (auto &h : ALPHA) if (!h.focus) h.disabled = true;
+          MAXD = phase == 0 ? depth_ext : (phase == 1 ? depth_core : depth_core + 1);
           FLAVOR = "direct";
           for (int oi : allowed) {
             if (!vp::mine(unit++)) continue;
